@@ -78,7 +78,11 @@ class Sigs:
         if step.isCheckoutStep():
             scms = []
             for scm in step.getScmList():
-                props = scm.getProperties(False)
+                props = dict(scm.getProperties(False))
+                if props.get('scm') == 'git' and props.get('commit'):
+                    # a commit id names the content whatever it is fetched from: Bob's symbolic description of a
+                    # commit-pinned git SCM deliberately is "<commit> <dir>" (GitScm.asDigestScript docstring)
+                    for k in ('url', 'branch', 'tag', 'rev', 'remotes'): props.pop(k, None)
                 scms.append(tuple(sorted((k, repr(v)) for k, v in props.items() if k not in SCM_IGNORE)))
             parts.append(tuple(scms))
             parts.append(tuple(self.decl[pkg.getName()]['assert']))
